@@ -3,6 +3,7 @@ package ast
 import (
 	"errors"
 	"fmt"
+	"regexp"
 	"regexp/syntax"
 	"strings"
 )
@@ -195,12 +196,22 @@ func validateRegex(pattern string, flags regexFlags) error {
 		return err
 	}
 
-	// (Compile never returns an error, so skip this bit.)
-	// Make sure it compiles.
-	// _, err = syntax.Compile(re.Simplify())
-	// if err != nil {
-	// 	return err
-	// }
+	// Make sure that the expression Regexp compiles at execution time
+	// compiles: regexp.Compile enforces size limits that syntax.Parse skips
+	// for a literal (flag "q") pattern, and Regexp panics if it fails.
+	if _, err := regexp.Compile(flags.goExpr(pattern)); err != nil {
+		//nolint:wrapcheck
+		return err
+	}
 
 	return nil
+}
+
+// goExpr returns the expression for the regexp package to compile in order
+// to match pattern with flags.
+func (f regexFlags) goExpr(pattern string) string {
+	if f.shouldQuoteMeta() {
+		return f.goFlags() + regexp.QuoteMeta(pattern)
+	}
+	return f.goFlags() + pattern
 }
